@@ -4,7 +4,7 @@
    as they are coded: the operands have the receiver's type, so a.GET() is the stored value itself
    ( *a.ptr, no conversion through an interface getter ), next to the GENERIC members, which are the
    operations of the shared value model coq/C02/Model.v (imported, not forked).  LOGADD / LOGSUB of the
-   bare types (sequences of the operations below) are not modelled here.
+   bare types are sequences of the operations below (the temporary is a value, distinct from the operands).
    No proofs in this file. *)
 From Coq Require Import ZArith List Bool.
 From ADV Require Import C02.Model.
@@ -69,9 +69,32 @@ Definition POW (t : ty) (a k : sval A) : res (sval A) := store C (base_of t) (cp
 (* SQRT: math.Sqrt(x) — the generic Sqrt is Pow(a, ConstFloat64(0.5)) = math.Pow(x, 0.5) *)
 Definition SQRT (t : ty) (a : sval A) : res (sval A) := UN t FSqrt a.
 
+(* LOGADD(a, b, t): if a.GREATER(b) { a, b = b, a }; if math.IsInf(a.GetFloat64(), 0) { c.SET(b); return c };
+   t.SUB(a, b); t.EXP(t); t.LOG1P(t); c.ADD(t, b) — t a temporary of the receiver's type, distinct from a, b, c *)
+Definition LOGADD (t : ty) (a b : sval A) : res (sval A) :=
+  g <- CMP t RGt a b ;;
+  let a' := if g then b else a in
+  let b' := if g then a else b in
+  if cisinf C (getf64 C a') 0 then SET t b'
+  else
+    t1 <- ARITH t OSub a' b' ;;
+    t2 <- UN t FExp t1 ;;
+    t3 <- UN t FLog1p t2 ;;
+    ARITH t OAdd t3 b'.
+(* LOGSUB(a, b, t): if math.IsInf(b.GetFloat64(), -1) { c.SET(a) }; t.SUB(b, a); t.EXP(t); t.NEG(t); t.LOG1P(t); c.ADD(t, a) *)
+Definition LOGSUB (t : ty) (a b : sval A) : res (sval A) :=
+  if cisinf C (getf64 C b) (-1) then SET t a
+  else
+    t1 <- ARITH t OSub b a ;;
+    t2 <- UN t FExp t1 ;;
+    t3 <- NEG t t2 ;;
+    t4 <- UN t FLog1p t3 ;;
+    ARITH t OAdd t4 a.
+
 (* ---------------------------------------------------------------- pair table *)
 Inductive bpair :=
-  | BArithP (o : aop) | BNegP | BMinP | BMaxP | BAbsP | BSetP | BPowP | BSqrtP | BExpP | BLogP | BLog1pP.
+  | BArithP (o : aop) | BNegP | BMinP | BMaxP | BAbsP | BSetP | BPowP | BSqrtP | BExpP | BLogP | BLog1pP
+  | BLogAddP | BLogSubP.
 Inductive bpred := BGreaterP | BSmallerP | BSignP | BEqualsP.
 
 (* receiver type t (not a magic type), receiver's old value cold, operands a, b of type t *)
@@ -86,6 +109,7 @@ Definition b_generic (p : bpair) (t : ty) (cold a b : sval A) : res (sval A) :=
   | BPowP => pow C t a b
   | BSqrtP => sqrt_ C t a
   | BExpP => un C t FExp a | BLogP => un C t FLog a | BLog1pP => un C t FLog1p a
+  | BLogAddP => logadd C t t (t, a) (t, b) | BLogSubP => logsub C t t (t, a) (t, b)
   end.
 Definition b_concrete (p : bpair) (t : ty) (cold a b : sval A) : res (sval A) :=
   match p with
@@ -98,6 +122,7 @@ Definition b_concrete (p : bpair) (t : ty) (cold a b : sval A) : res (sval A) :=
   | BPowP => POW t a b
   | BSqrtP => SQRT t a
   | BExpP => UN t FExp a | BLogP => UN t FLog a | BLog1pP => UN t FLog1p a
+  | BLogAddP => LOGADD t a b | BLogSubP => LOGSUB t a b
   end.
 Inductive bres := RB (b : bool) | RZ (z : Z) | RPanic | RExcl.
 Definition rb (r : res bool) : bres := match r with Val b => RB b | Panic => RPanic | _ => RExcl end.
